@@ -25,9 +25,61 @@ def _is_const_true(fn, b):
     return v is not None and v != 0
 
 
+def _flag_loop(fn, hb, body):
+    """`while (running == 1)`: the header tests a local that the body only ever sets to constants — a flag, not a bound taken
+    from the data: like `while (1)` the loop ends only where an arm decides to."""
+    cond = fn.nodes.get(hb.get('cond')) if 'cond' in hb else None
+    if cond is None:
+        return False
+    c = strip(cond, casts=True)
+    v = None
+    if c['k'] == 'BinaryOperator' and c.get('op') in ('==', '!='):
+        a, b = strip(kids(c)[0], casts=True), strip(kids(c)[1], casts=True)
+        if a['k'] == 'DeclRefExpr' and const(b) is not None:
+            v = a
+        elif b['k'] == 'DeclRefExpr' and const(a) is not None:
+            v = b
+    elif c['k'] == 'DeclRefExpr':
+        v = c
+    if v is None or v.get('dk') != 'local':
+        return False
+    stores = 0
+    for n in fn.nodes.values():
+        w = fn.where.get(n['i'])
+        if w is None or w[0] not in body:
+            continue
+        if n['k'] in ('BinaryOperator', 'CompoundAssignOperator') and n.get('op', '').endswith('=') and \
+                n['op'] not in ('==', '!=', '<=', '>=') and strip(kids(n)[0]).get('d') == v.get('d'):
+            if n['op'] != '=' or const(kids(n)[1]) is None:
+                return False
+            stores += 1
+        elif n['k'] == 'UnaryOperator' and n.get('op') in ('++', '--', '&') and strip(kids(n)[0]).get('d') == v.get('d'):
+            return False
+    return stores > 0
+
+
+_WRAPPERS = {}
+
+
+def reader_wrappers(prog):
+    """file-local helpers that read through getc/fgetc/get_int8 and hand the value back combined (read_int32): their result
+    has no end-of-input value, so only an feof()/EOF test of the stream can end a loop that reads through them."""
+    if id(prog) not in _WRAPPERS:
+        out = set()
+        for fn in prog.functions(lambda f: f.file.startswith('fileio/')):
+            if fn.ret_type() == 'void':
+                continue
+            if any(callee(c) in ('getc', 'fgetc', 'FileIo::get_int8') for c in fn.calls()) and \
+                    not any((callee(c) or '') in ('feof',) for c in fn.calls()):
+                out.add(fn.key)
+        _WRAPPERS[id(prog)] = out
+    return _WRAPPERS[id(prog)]
+
+
 def eof(prog, scope, floor, table=None):
     table = table or load_table()
     accepted = {(e['file'], e['function'], e['construct']): e for e in table.get('eof_accepted', [])}
+    wrappers = reader_wrappers(prog)
     obs = []
     for fn in prog.functions(scope):
         if not fn.blocks:
@@ -37,15 +89,50 @@ def eof(prog, scope, floor, table=None):
         for h, body in sorted(loops.items(), key=lambda kv: -kv[0]):
             hb = fn.blocks[h]
             # constant-true loops only: loops with a real condition are bounded by it (R-TAINT covers file counts)
+            flag = False
             if not _is_const_true(fn, hb):
                 # `while (1)` is built by clang as a header without condition whose body starts at its only successor
-                continue
+                if not _flag_loop(fn, hb, body):
+                    continue
+                flag = True
             reads = []
+            wreads = []
             for bid in body:
                 for e in fn.blocks[bid]['e']:
                     n = fn.nodes.get(e)
                     if n is not None and callee(n) in READERS:
                         reads.append(n)
+                    elif n is not None and n['k'] == 'CallExpr' and ckey(n) in wrappers:
+                        wreads.append(n)
+            if not reads and wreads:
+                # reads only through wrappers: an exit must test the stream itself
+                k += 1
+                construct = 'reader-loop#%d:%s' % (k, callee(wreads[0]).split('::')[-1])
+                ok = False
+                for bid in body:
+                    bb = fn.blocks[bid]
+                    cond = fn.nodes.get(bb.get('cond')) if 'cond' in bb else None
+                    if cond is None or bid == h and flag:
+                        continue
+                    if not any(s_ is not None and (s_ not in body or not _reaches(fn, s_, h, body)) for s_ in bb['s']):
+                        continue
+                    t = show(cond)
+                    if 'feof' in t or 'EOF' in t:
+                        ok = True
+                        why = 'exit on `%s`' % t[:50]
+                acc = accepted.get((fn.file, fn.q, construct))
+                if ok:
+                    obs.append(Ob('R-EOF', fn.file, wreads[0]['l'], fn.q, construct, DISCHARGED, '', why))
+                elif acc:
+                    obs.append(Ob('R-EOF', fn.file, wreads[0]['l'], fn.q, construct, DISCHARGED, '', 'accepted: ' + acc['reason']))
+                else:
+                    obs.append(Ob('R-EOF', fn.file, wreads[0]['l'], fn.q, construct, VIOLATED,
+                                  'the loop ends only where one of its arms decides to (%s) and reads its input through %s, whose '
+                                  'result has no end-of-input value; no exit tests feof()/EOF of the stream: at the end of a '
+                                  'truncated file every read returns all ones and the loop never terminates' % (
+                                      'flag `%s`' % show(fn.nodes.get(hb.get('cond')))[:30] if flag else 'constant-true loop',
+                                      callee(wreads[0]))))
+                continue
             if not reads:
                 continue
             k += 1
